@@ -142,6 +142,10 @@ pub struct ProgG {
     pub debug_section: bool,
     /// relocatable objects: which kernel-module marker sections exist (bit 0 `.modinfo`, bit 1 `.gnu.linkonce.this_module`)
     pub markers: u8,
+    /// random bits selecting legal variations of section / program header fields (0 = plain image):
+    /// sh_addralign ∈ {0,1,2,4,8,16,4096} per loaded section, extra loaded sections (align 0/1 data, SHT_NOBITS,
+    /// size 0), non-loaded sections; p_align 0/1/0x1000, extra program headers (GNU_STACK, NOTE, zero-size LOAD)
+    pub elf_var: u64,
     /// read-only data placed behind the code (strings), writable data
     pub rodata: Vec<u8>,
     pub data: Vec<u8>,
@@ -249,6 +253,18 @@ pub struct Layout {
 }
 
 pub const TEXT_OFF: u64 = 0x1000;
+pub const ALIGNS: [u64; 8] = [0, 1, 2, 4, 8, 16, 4096, 16];
+fn var_align(elf_var: u64, slot: u32) -> u64 {
+    if elf_var == 0 {
+        16
+    } else {
+        ALIGNS[((elf_var >> (3 * slot)) & 7) as usize]
+    }
+}
+/// the alignment the loader model applies (`sh_addralign` 0 and 1 both mean "no constraint")
+fn eff_align(a: u64) -> u64 {
+    a.max(1).next_power_of_two()
+}
 
 /// Ghidra's image base for the three kinds of ELF files
 pub fn image_base(kind: Kind) -> u64 {
@@ -289,7 +305,10 @@ pub fn layout(p: &ProgG) -> Layout {
     a += p.rodata.len() as u64;
     let text_len = a - text_addr;
     let data_addr = match p.kind {
-        Kind::Lkm => (a + 15) & !15,
+        Kind::Lkm => {
+            let al = eff_align(var_align(p.elf_var, 1));
+            (a + al - 1) / al * al
+        }
         _ => ((a + 0xfff) & !0xfff) + 0x1000,
     };
     Layout { image_base: ib, text_addr, ins_addr, ext_addr, rodata_addr, data_addr, text_len }
@@ -583,7 +602,9 @@ pub fn emit_elf(p: &ProgG, l: &Layout, rng: &mut Rng) -> Vec<u8> {
     text[ro_off..ro_off + p.rodata.len()].copy_from_slice(&p.rodata);
     let data = p.data.clone();
     let is_rel = p.kind == Kind::Lkm;
-    let phnum: u16 = if is_rel { 0 } else { 2 };
+    let ev = p.elf_var;
+    let extra_ph: u16 = if ev == 0 { 0 } else { ((ev >> 40) & 3) as u16 };
+    let phnum: u16 = if is_rel { 0 } else { 2 + extra_ph };
     let ehsize = 64u64;
     let phsize = 56u64;
     let mut out: Vec<u8> = Vec::new();
@@ -595,8 +616,8 @@ pub fn emit_elf(p: &ProgG, l: &Layout, rng: &mut Rng) -> Vec<u8> {
     let vtext = if is_rel { 0 } else { l.text_addr - if p.kind == Kind::Pie { l.image_base } else { 0 } };
     let vdata = if is_rel { 0 } else { l.data_addr - if p.kind == Kind::Pie { l.image_base } else { 0 } };
     let _ = base_v;
-    secs.push(Sec { name: ".text", ty: 1, flags: 0x6, addr: vtext, off: text_off, size: text_len as u64, align: 16 });
-    secs.push(Sec { name: ".data", ty: 1, flags: 0x3, addr: vdata, off: data_off, size: data.len() as u64, align: 16 });
+    secs.push(Sec { name: ".text", ty: 1, flags: 0x6, addr: vtext, off: text_off, size: text_len as u64, align: var_align(ev, 0) });
+    secs.push(Sec { name: ".data", ty: 1, flags: 0x3, addr: vdata, off: data_off, size: data.len() as u64, align: var_align(ev, 1) });
     let mut extra: Vec<u8> = Vec::new();
     let extra_off = data_off + data.len() as u64;
     if is_rel && p.markers & 1 != 0 {
@@ -610,6 +631,34 @@ pub fn emit_elf(p: &ProgG, l: &Layout, rng: &mut Rng) -> Vec<u8> {
     if is_rel && p.markers & 2 != 0 {
         secs.push(Sec { name: ".gnu.linkonce.this_module", ty: 1, flags: 0x3, addr: 0, off: extra_off + extra.len() as u64, size: 64, align: 8 });
         extra.extend_from_slice(&[0u8; 64]);
+    }
+    if ev != 0 {
+        // further sections behind the data (they do not move the addresses the program uses)
+        if ev & (1 << 20) != 0 {
+            // loaded read-only data without alignment constraint (sh_addralign 0 or 1), at an odd file offset
+            extra.push(0x55);
+            let n = 9 + ((ev >> 24) & 15) as usize;
+            secs.push(Sec { name: ".rodata.str1.1", ty: 1, flags: 0x2, addr: 0, off: extra_off + extra.len() as u64, size: n as u64, align: (ev >> 21) & 1 });
+            extra.extend(std::iter::repeat(0x41u8).take(n - 1));
+            extra.push(0);
+        }
+        if ev & (1 << 22) != 0 {
+            // SHT_NOBITS: occupies no file space
+            secs.push(Sec { name: ".bss", ty: 8, flags: 0x3, addr: 0, off: extra_off + extra.len() as u64, size: 0x30 + ((ev >> 28) & 0xff), align: var_align(ev, 2) });
+        }
+        if ev & (1 << 23) != 0 {
+            // loaded section of size 0
+            secs.push(Sec { name: ".init.text", ty: 1, flags: 0x6, addr: 0, off: extra_off + extra.len() as u64, size: 0, align: var_align(ev, 3) });
+        }
+        if ev & (1 << 36) != 0 {
+            secs.push(Sec { name: ".data..read_mostly", ty: 1, flags: 0x3, addr: 0, off: extra_off + extra.len() as u64, size: 24, align: var_align(ev, 4) });
+            extra.extend_from_slice(&[7u8; 24]);
+        }
+        if ev & (1 << 37) != 0 {
+            // not loaded
+            secs.push(Sec { name: ".comment", ty: 1, flags: 0x30, addr: 0, off: extra_off + extra.len() as u64, size: 12, align: 1 });
+            extra.extend_from_slice(b"GCC: (x) 1.0");
+        }
     }
     if p.debug_section {
         secs.push(Sec { name: ".debug_info", ty: 1, flags: 0, addr: 0, off: extra_off + extra.len() as u64, size: 16, align: 1 });
@@ -656,7 +705,7 @@ pub fn emit_elf(p: &ProgG, l: &Layout, rng: &mut Rng) -> Vec<u8> {
         w64(&mut out, hdr_v);
         w64(&mut out, TEXT_OFF + text_len as u64);
         w64(&mut out, TEXT_OFF + text_len as u64);
-        w64(&mut out, 0x1000);
+        w64(&mut out, if ev == 0 { 0x1000 } else { [0x1000u64, 0, 1, 0x1000][((ev >> 42) & 3) as usize] });
         // PT_LOAD data (RW), memsz > filesz (bss)
         w32(&mut out, 1);
         w32(&mut out, 6);
@@ -665,7 +714,42 @@ pub fn emit_elf(p: &ProgG, l: &Layout, rng: &mut Rng) -> Vec<u8> {
         w64(&mut out, vdata);
         w64(&mut out, data.len() as u64);
         w64(&mut out, data.len() as u64 + 0x40);
-        w64(&mut out, 0x1000);
+        w64(&mut out, if ev == 0 { 0x1000 } else { [0x1000u64, 0, 1, 8][((ev >> 44) & 3) as usize] });
+        for k in 0..extra_ph {
+            match (k + ((ev >> 46) & 3) as u16) % 3 {
+                0 => {
+                    // PT_GNU_STACK
+                    w32(&mut out, 0x6474e551);
+                    w32(&mut out, 6);
+                    for _ in 0..5 {
+                        w64(&mut out, 0);
+                    }
+                    w64(&mut out, 0x10);
+                }
+                1 => {
+                    // PT_LOAD of size 0 behind the data segment
+                    w32(&mut out, 1);
+                    w32(&mut out, 4);
+                    w64(&mut out, data_off + data.len() as u64);
+                    w64(&mut out, vdata + 0x2000);
+                    w64(&mut out, vdata + 0x2000);
+                    w64(&mut out, 0);
+                    w64(&mut out, 0);
+                    w64(&mut out, 0);
+                }
+                _ => {
+                    // PT_LOAD with p_filesz = 0 < p_memsz (pure bss segment)
+                    w32(&mut out, 1);
+                    w32(&mut out, 6);
+                    w64(&mut out, data_off + data.len() as u64);
+                    w64(&mut out, vdata + 0x3000);
+                    w64(&mut out, vdata + 0x3000);
+                    w64(&mut out, 0);
+                    w64(&mut out, 0x80);
+                    w64(&mut out, 1);
+                }
+            }
+        }
     }
     while (out.len() as u64) < text_off {
         out.push(0);
@@ -725,7 +809,7 @@ impl<'a> Gen<'a> {
         Gen {
             rng,
             uniq: 0x1000,
-            prog: ProgG { kind, funcs: vec![], exts: vec![], debug_section: false, markers: 3, rodata: vec![], data: vec![] },
+            prog: ProgG { kind, funcs: vec![], exts: vec![], debug_section: false, markers: 3, elf_var: 0, rodata: vec![], data: vec![] },
             features: vec![],
         }
     }
@@ -1107,6 +1191,9 @@ impl<'a> Gen<'a> {
     pub fn finish(mut self) -> Input {
         if self.prog.data.len() < 64 {
             self.prog.data.resize(64, 0);
+        }
+        if self.rng.chance(3, 4) {
+            self.prog.elf_var = self.rng.next() | (1 << 63);
         }
         let l = layout(&self.prog);
         let patch = |v: &mut V| match v {
@@ -2183,6 +2270,21 @@ impl Recipe {
     pub fn always_uaf() -> Vec<Recipe> {
         UAF_VARIANTS.iter().enumerate().map(|(i, v)| Recipe::special(&format!("uaf:{}", v), [Kind::Pie, Kind::Exec][i % 2], 8000 + i as u64)).collect()
     }
+    /// … deep expression chains, with and without same-name temporaries of different sizes
+    pub fn always_chains() -> Vec<Recipe> {
+        let mut v = Vec::new();
+        for i in 0..6u64 {
+            v.push(Recipe::special("twin_chain", [Kind::Pie, Kind::Exec, Kind::Lkm][(i % 3) as usize], 9000 + 2 * i));
+        }
+        for i in 0..3u64 {
+            v.push(Recipe::special("deep_chain", [Kind::Pie, Kind::Exec, Kind::Lkm][(i % 3) as usize], 9100 + 2 * i));
+        }
+        v
+    }
+    pub fn random_twin_chain(rng: &mut Rng) -> Recipe {
+        let kind = Recipe::random_kind(rng);
+        Recipe::special("twin_chain", kind, rng.next())
+    }
     pub fn random_deep_chain(rng: &mut Rng) -> Recipe {
         let kind = Recipe::random_kind(rng);
         Recipe::special("deep_chain", kind, rng.next())
@@ -2498,6 +2600,77 @@ pub fn gen_special(rng: &mut Rng, kind: Kind, name: &str, markers: u8) -> Input 
                     }
                 }
             }
+        }
+        // two temporaries with the SAME unique id but different sizes (`$Uxxxx:4` / `$Uxxxx:8`): the narrow one gets
+        // an expression deeper than the propagation limit, the other one is defined from it and then used in memory
+        // accesses / indirect jump, call and return targets, followed by accesses that checks report on
+        "twin_chain" => {
+            const R: [&str; 11] = ["RBX", "RCX", "RDX", "RSI", "R8", "R9", "R10", "R11", "R13", "R14", "R15"];
+            let mut b = g.prologue(0x30);
+            b.push(g.mov_r32i("RDI", 0x40));
+            b.push(g.call_ext("malloc"));
+            // exactly 9 operations of kinds that no simplification rule merges: the expression of the last register has
+            // depth 9 (still inserted), the one of the first twin depth 10 (not inserted into later assignments any more)
+            let n = 9usize;
+            let wide_first = g.rng.chance(1, 2);
+            // (narrow size, wide size): the chain runs on the size of the twin that is defined first
+            let (s_first, s_second) = if wide_first { (8u64, 4u64) } else { (4u64, 8u64) };
+            let mut prev: V = reg("RAX", s_first);
+            for k in 0..n {
+                let d = reg(R[k], s_first);
+                let c = 1 + g.rng.below(6);
+                let mn = ["INT_ADD", "INT_XOR", "INT_SUB", "INT_XOR"][k % 4];
+                let i = g.i(vec![op(d.clone(), mn, vec![prev.clone(), V::Const(c, s_first)])]);
+                b.push(i);
+                prev = d;
+            }
+            let id = 0x1000 + 0x80 * g.rng.below(8);
+            let t_first = V::Tmp(id, s_first);
+            let t_second = V::Tmp(id, s_second);
+            let second_def = if wide_first {
+                op(t_second.clone(), "SUBPIECE", vec![t_first.clone(), V::Const(0, 4)])
+            } else {
+                let mn = if g.rng.chance(1, 2) { "INT_ZEXT" } else { "INT_SEXT" };
+                op(t_second.clone(), mn, vec![t_first.clone()])
+            };
+            let wide = if wide_first { t_first.clone() } else { t_second.clone() };
+            let narrow = if wide_first { t_second.clone() } else { t_first.clone() };
+            // the instruction that defines both twins and uses them
+            // (an operation kind that the simplifier does not merge with the last one of the chain)
+            let mut ops = vec![op(t_first.clone(), "INT_OR", vec![prev.clone(), V::Const(1, s_first)]), second_def];
+            let use_kind = g.rng.below(6);
+            match use_kind {
+                0 => ops.push(op(r8("R12"), "LOAD", vec![space(), wide.clone()])),
+                1 => ops.push(POp { out: None, mn: "STORE", ins: vec![space(), wide.clone(), V::Const(5, 8)] }),
+                2 => ops.push(POp { out: None, mn: "STORE", ins: vec![space(), r8("RSP"), wide.clone()] }),
+                3 => ops.push(POp { out: None, mn: "STORE", ins: vec![space(), r8("RAX"), narrow.clone()] }),
+                _ => {}
+            }
+            b.push(g.i(ops));
+            // accesses through the allocated object afterwards
+            b.push(g.store("RAX", 0, V::Const(0x41, 8)));
+            b.push(g.load("R12", 8, "RAX", 8));
+            let tail = match use_kind {
+                4 => g.call_ind(wide.clone()),
+                5 => g.term(Tm::JmpInd(wide.clone(), vec![])),
+                _ => {
+                    let mut t = g.term(Tm::Jmp(0));
+                    t.len = 2;
+                    t
+                }
+            };
+            let is_jmp = matches!(tail.term, Some(Tm::Jmp(_)));
+            let mut blocks = to_blocks(b, tail);
+            let nb = blocks.len();
+            if is_jmp {
+                if let Some(Tm::Jmp(t)) = blocks[nb - 1].ins.last_mut().and_then(|i| i.term.as_mut()) {
+                    *t = nb;
+                }
+            }
+            let mut seg_j = vec![g.store("RAX", 16, V::Const(0x42, 8)), g.mov_r32i("RAX", 0)];
+            seg_j.extend(g.epilogue(0x30));
+            blocks.push(BlockG { ins: seg_j, suffix: None });
+            funcs.push(FuncG { name: "main".into(), blocks, shared: vec![], cconv: Some("__stdcall"), no_blocks: false });
         }
         // one jump kind with a label that points to an address without block / function
         n if n.starts_with("dangling:") => {
